@@ -138,9 +138,18 @@ def validate(module, cfg, trace_file, tag, timeout=1200):
     """Validate one projection file against a trace spec. Returns dict(ok, lines, violations, known)."""
     meta = os.path.join(WORK, "tlc_val_" + tag)
     shutil.rmtree(meta, ignore_errors=True)
-    n = sum(1 for _ in open(trace_file))
+    n = 0
+    hist = {}
+    with open(trace_file) as f:
+        for line in f:
+            n += 1
+            i = line.find('"ev":"')
+            if i >= 0:
+                j = line.find('"', i + 6)
+                k = line[i + 6:j]
+                hist[k] = hist.get(k, 0) + 1
     if n == 0:
-        return {"ok": True, "lines": 0, "violations": [], "known": [], "states": 0}
+        return {"ok": True, "lines": 0, "violations": [], "known": [], "states": 0, "hist": {}}
     rc, out = tlc(module, cfg, meta, workers=1, env={"TRACE": trace_file}, timeout=timeout,
                   java_opts=["-Dtlc2.tool.queue.IStateQueue=StateDeque"])
     shutil.rmtree(meta, ignore_errors=True)
@@ -160,7 +169,7 @@ def validate(module, cfg, trace_file, tag, timeout=1200):
     if not ok and not viol:
         raise ToolError("trace validation %s on %s failed without a verdict (rc=%d):\n%s" % (
             module, trace_file, rc, out[-5000:]))
-    return {"ok": ok, "lines": n, "violations": viol, "known": known, "states": states}
+    return {"ok": ok, "lines": n, "violations": viol, "known": known, "states": states, "hist": hist}
 
 
 # ------------------------------------------------------------------------------------------------
